@@ -96,6 +96,7 @@ func (i *interpreter) toHost(v value, t reflect.Type) reflect.Value {
 	}
 	switch t.Kind() {
 	case reflect.String:
+		i.inspectStr(v.(string))
 		return reflect.ValueOf(v.(string)).Convert(t)
 	case reflect.Bool:
 		return reflect.ValueOf(v.(bool)).Convert(t)
@@ -283,3 +284,15 @@ func (i *interpreter) errString(e iface) string {
 }
 
 var _ = fmt.Sprint
+
+// Modelled strings (label-value atoms, formatted symbolic integers, formatted
+// symbolic instants and durations) are concrete placeholders whose characters
+// mean nothing. Code that looks inside one is still executed, but the path is
+// tainted: it can produce a (replay-confirmed) violation, never a "holds".
+func isModelStr(s string) bool { return strings.Contains(s, "§") }
+
+func (i *interpreter) inspectStr(s string) {
+	if isModelStr(s) && i.ctx.taint == "" && i.initDepth == 0 {
+		i.ctx.taint = "characters of a modelled string (" + s + ") inspected" + i.where()
+	}
+}
